@@ -4,7 +4,7 @@ import json, os, re, sys
 root = os.path.join(os.path.dirname(os.path.abspath(__file__)), "..", "seeded")
 rows = []
 def order(x):
-    m = re.match(r"(C\d\d)-(?:r(\d))?m(\d)", x)
+    m = re.match(r"(C\d\d)-(?:r(\d+))?m(\d)", x)
     return (m.group(1), int(m.group(2) or 1), int(m.group(3))) if m else (x, 0, 0)
 
 
